@@ -252,6 +252,76 @@ def step (_ : Unit) (w : List String) : Unit × String :=
         ((), fmtVal tgt (f true) (f false) ++ " | S " ++ altsVal (expected src tgt x))
       | none => ((), "bad-op")
     | _, _ => ((), "bad-op")
+  | ["c", "argv", s, t, v] =>
+    -- the value passes through `mpt_process_vararg`: `mpt_value_argv` stores the promoted argument back in its
+    -- type (the 'e' case is compiled out there: such values are refused), then `mpt_iterator_consume` reads it
+    match Ty.ofName s, Ty.ofName t with
+    | some src, some tgt =>
+      match parseSrc src v with
+      | some x =>
+        let f (d : Bool) : Res (Option Out × Nat) :=
+          if src = .e then .err .BadType else
+          match valueConvert src tgt x d with
+          | .ok (o, _) => .ok (o, src.code)
+          | r => r
+        ((), fmtVal tgt (f true) (f false) ++ " | S " ++ altsVal (expected src tgt x))
+      | none => ((), "bad-op")
+    | _, _ => ((), "bad-op")
+  | "c" :: "fpoint" :: "val" :: s :: vals =>
+    -- `mpt_fpoint_set`: `mpt_iterator_consume(it, 'f', ..)` for x, then for y (a missing second value repeats x)
+    match Ty.ofName s with
+    | some src =>
+      match vals.mapM (parseSrc src) with
+      | some xs =>
+        if xs.length = 1 ∨ xs.length = 2 then
+          let cv (x : Src) : Res String := match valueConvert src .f x true with
+            | .ok (some o, _) => .ok (outText .f o)
+            | .ok (none, _) => .fault
+            | .err e => .err e
+            | .null => .null | .oob => .oob | .fault => .fault
+          let m : Res (List String) := xs.mapM cv
+          let spec : Option (List String) := xs.mapM (expected src .f)
+          let line (l : List String) : String := match l with
+            | [a] => s!"ok n=1 x={a} y={a}"
+            | [a, b] => s!"ok n=2 x={a} y={b}"
+            | _ => "?"
+          let alts := match spec with
+            | some l => s!"{line l} ; pt=set || refused ; pt=kept"
+            | none => "refused ; pt=kept"
+          match m with
+          | .ok l => ((), s!"R {line l} | C pt=set | I ret={l.length} | S {alts}")
+          | .err e => ((), s!"R refused | C pt=kept | I ret={e.name} | S {alts}")
+          | r => ((), s!"R {resName r} | C - | I - | S {alts}")
+        else ((), "bad-op")
+      | none => ((), "bad-op")
+    | none => ((), "bad-op")
+  | ["c", "fpoint", "text", hex, altw] =>
+    -- one numeral word through `mpt_iterator_string`: the element converts itself with `mpt_convert_string(.., 'f', ..)`
+    match parseHex hex, parseAlts altw with
+    | some bs, some al =>
+      let s := cstr (bs.map (·.toNat))
+      let full := al.find? (·.1 = s.length)
+      let oracle : StrToF × String := match full with
+        | some (k, v) =>
+          if v = "ovf" then ({ value := .inf false, consumed := k, erange := true, overflow := true }, v)
+          else if v = "-ovf" then ({ value := .inf true, consumed := k, erange := true, overflow := true }, v)
+          else if v = "nan" then ({ value := .nan, consumed := k, erange := false, overflow := false }, v)
+          else match parseHex v with
+            | some b => ({ value := decode binary32 (leValue b), consumed := k, erange := false, overflow := false }, v)
+            | none => ({ value := .nan, consumed := 0, erange := false, overflow := false }, v)
+        | none => ({ value := .nan, consumed := 0, erange := false, overflow := false }, "-")
+      if s = [] ∨ s.any isSpace then ((), "bad-op") else
+      let res := match floatParserFor "number" .f with
+        | some p => runFloatParser p oracle.1 s true
+        | none => .err .BadType
+      let alts := match full with
+        | some (_, v) => if v = "ovf" ∨ v = "-ovf" then "refused ; pt=kept" else s!"ok n=1 x={v} y={v} ; pt=set || refused ; pt=kept"
+        | none => "refused ; pt=kept"
+      match res with
+      | .ok (some _, _) => ((), s!"R ok n=1 x={oracle.2} y={oracle.2} | C pt=set | I ret=1 | S {alts}")
+      | .err _ => ((), s!"R refused | C pt=kept | I ret=BadType | S {alts}")
+      | r => ((), s!"R {resName r} | C - | I - | S {alts}")
+    | _, _ => ((), "bad-op")
   | ["c", "sweep", s, t, lo, hi] =>
     match Ty.ofName s, Ty.ofName t, lo.toInt?, hi.toInt? with
     | some src, some tgt, some lo, some hi =>
